@@ -51,6 +51,26 @@ func (m *C11Monitor) AfterStep(s *Sim, a *Action) {
 			if meta.Left && !x.Left {
 				s.Fail("left-fabricated", "%s: flagged left although %s never left", where, meta.ID)
 			}
+			if x.Left && !meta.Left {
+				// "seen as left by every node that learns of it": a view that has
+				// reached the version at which the owner currently holds its left
+				// marker (compaction re-versions it) must show the node as left; if
+				// the owner no longer holds the marker at all, a view that is fully
+				// caught up can never learn it.
+				own := x.V.LocalNode()
+				var lv uint64
+				for _, e := range own.Entries {
+					if e.Internal && e.Key == "_internal:left" {
+						lv = e.Version
+					}
+				}
+				if lv == 0 && meta.Version >= own.Version {
+					s.Fail("left-marker-lost", "%s: %s declared itself left but its own state (version %d) no longer carries the left marker, and this view is caught up with it (version %d) without knowing it left", where, meta.ID, own.Version, meta.Version)
+				} else if lv != 0 && meta.Version >= lv {
+					s.Fail("left-unseen", "%s: the view is at version %d, past the owner's left marker (version %d), but does not show the node as left", where, meta.Version, lv)
+				}
+				s.Stats["left_marker_checks"]++
+			}
 			if pm, ok := prev[meta.ID]; ok && pm.Left && !meta.Left {
 				s.Fail("left-node-revived", "%s: was left, is live again without having been forgotten in between", where)
 			}
@@ -421,12 +441,12 @@ func runC11(sh *core.Shard, a props.Args) {
 func init() {
 	props.Register(&props.Prop{
 		ID: "C11", Level: "exploration",
-		Rule: "simulator runs with a logical-clock failure detector (same contract as the real one, which C12 checks) and logical-time expiry (expiry period = 600 gossip intervals, as in piko): (a) random interleavings of writes, gossip with loss/dup/delay, stream leave, crash, ticks, liveness evaluation and early/due/late/partial sweeps with per-step rules (local node never flagged or removed, left only if the owner left, left never revived, flagged nodes are scheduled for removal and excluded from the live set, routing status follows the flags, no discovery from a digest that marks the node left, liveness flag == suspicion>threshold, sweeps remove exactly the expired); (b) crash-closure and (c) leave-closure scenarios: after the node goes away the survivors tick/evaluate/sweep-what-is-due/gossip with seeded skew and the node must be forgotten by all within expiry + (N+3) detection periods and stay forgotten for two more expiry periods. Non-trivial = at least one expiry and one unreachable mark or graceful leave; distinct = hash of (variant, event counts, final states).",
+		Rule: "simulator runs with a logical-clock failure detector (same contract as the real one, which C12 checks) and logical-time expiry (expiry period = 600 gossip intervals, as in piko): (a) random interleavings of writes, gossip with loss/dup/delay, stream leave, crash, ticks, liveness evaluation and early/due/late/partial sweeps with per-step rules (local node never flagged or removed, left only if the owner left, left never revived, a view that has reached the version of the owner's current left marker shows the node as left (and a caught-up view of an owner that lost its marker is reported), flagged nodes are scheduled for removal and excluded from the live set, routing status follows the flags, no discovery from a digest that marks the node left, liveness flag == suspicion>threshold, sweeps remove exactly the expired); (b) crash-closure and (c) leave-closure scenarios: after the node goes away the survivors tick/evaluate/sweep-what-is-due/gossip with seeded skew and the node must be forgotten by all within expiry + (N+3) detection periods and stay forgotten for two more expiry periods. Non-trivial = at least one expiry and one unreachable mark or graceful leave; distinct = hash of (variant, event counts, final states).",
 		Assumptions: []string{
 			"failure detector replaced by a logical-clock implementation of the same interface contract (C12 checks the real one)",
 			"expiry sweeps driven through RemoveExpiredAt with times derived from the recorded expiry values, not the wall clock",
 		},
-		RequireCounters: []string{"expirations", "unreachable_marks", "recoveries", "graceful_leaves", "closure_forgotten", "rediscoveries", "leave_propagation_checks"},
+		RequireCounters: []string{"expirations", "unreachable_marks", "recoveries", "graceful_leaves", "closure_forgotten", "rediscoveries", "leave_propagation_checks", "left_marker_checks"},
 		Timeout:         simTimeout(10*time.Minute, 90*time.Minute),
 		Run:             runC11,
 		Replay:          replayWith(c11Monitors),
